@@ -1268,6 +1268,13 @@ func runC09(c *Ctx) {
 				isS := func(p string) bool { return p == self+".ID()" || p == self }
 				return (isT(l, lp) && isS(rp)) || (isT(r, rp) && isS(lp))
 			}
+			// `switch target.ID() { case self.ID(): ... default: forward }`: the case not taken
+			identityTag := func(tag, e ast.Expr, truth bool) bool {
+				if truth {
+					return false
+				}
+				return identity(&ast.BinaryExpr{X: tag, Op: token.NEQ, Y: e}, true)
+			}
 			if v := g.varOf(target); v != nil {
 				defs := g.defsOf(v)
 				allLit := len(defs) > 0
@@ -1289,13 +1296,21 @@ func runC09(c *Ctx) {
 					return res
 				}
 				bad, okDefs := g.CutFromDefs(at, v, func(p string) bool { return selfSources[p] }, func(at atom) bool {
-					return at.tag == nil && identity(at.e, at.truth)
+					if at.tag != nil {
+						return identityTag(at.tag, at.e, at.truth)
+					}
+					return identity(at.e, at.truth)
 				})
 				if okDefs {
 					return bad == nil
 				}
 			}
-			return g.FactsAt(at).Cmp(func(e, tag ast.Expr, truth bool, fa *Fact) bool { return tag == nil && identity(e, truth) })
+			return g.FactsAt(at).Cmp(func(e, tag ast.Expr, truth bool, fa *Fact) bool {
+				if tag != nil {
+					return identityTag(tag, e, truth)
+				}
+				return identity(e, truth)
+			})
 		}
 		want := types.ExprString(ast.Unparen(target))
 		ok := guarded(fn, call, target, 0)
